@@ -328,6 +328,11 @@ func pumpStdout(conn wsConn, stdout io.Reader, done chan struct{}, config *Confi
 		if bufSize <= 0 {
 			bufSize = 2048
 		}
+		if bufSize < utf8.UTFMax {
+			// an incomplete rune that is held back must leave room to read its
+			// remaining bytes (otherwise Read returns at once, for ever)
+			bufSize = utf8.UTFMax
+		}
 		for {
 			out := make([]byte, bufSize)
 			copy(out[:remainLen], remainBuf[:remainLen])
